@@ -4,10 +4,10 @@ package main
 // of the state-word protocol; linearizability itself is NOT decided).
 
 import (
-	"sort"
 	"fmt"
 	"go/token"
 	"go/types"
+	"sort"
 	"strings"
 
 	"golang.org/x/tools/go/ssa"
@@ -780,8 +780,8 @@ func waitsForReaders(f *ssa.Function) bool {
 // Layout: readers = low 30 bits, all ones = locked; bit 30 = havePtr; bits 31..63 = extra.
 func c03Encoding(c *Ctx, m *Module) {
 	r := c.R
-	const K = "1073741823"          // 1<<30 - 1
-	const H = "1073741824"          // 1<<30
+	const K = "1073741823"           // 1<<30 - 1
+	const H = "1073741824"           // 1<<30
 	const E = "18446744071562067968" // 1<<64 - 1<<31
 	want := map[string][]string{
 		"readers":      {"conv<int>((param:b & " + K + "))"},
